@@ -17,7 +17,7 @@ C : the explicit contract `FmtContract` the value theorems assume (parse(format 
     numpy.fromstring with round_p computed independently in exact rational arithmetic (`contract_check`).
 P : older, coarser form of C kept as a cross-check — `'%.{p}g' % x` is a non-empty whitespace-free, quote-free token, numpy's
     text parser agrees with `float()` on it, the same float comes back for p >= 17."""
-import os, sys, math, struct, gzip, pickle, tempfile, shutil, copyreg, itertools, io, inspect, builtins
+import os, sys, math, struct, gzip, pickle, tempfile, shutil, copyreg, itertools, io, inspect, builtins, copy, logging, re
 from fractions import Fraction
 from decimal import Decimal, localcontext, ROUND_HALF_EVEN
 import numpy as np
@@ -83,6 +83,18 @@ def same_floats(a, b):
 def fmt_tok(p, x):
     """the trusted parameter: how one entry is formatted"""
     return '%.*g' % (p, float(x))
+
+_FMTSTR = {}
+def model_fmt(d, p, which=0):
+    """the format string the GENERATED writer applies to every entry for a requested precision p (0: to_file, 1: array_to_file)"""
+    if p not in _FMTSTR:
+        out = d.ask('c14.fmtstr %d' % p).split(' ')
+        _FMTSTR[p] = (unX(out[1]), unX(out[2])) if out[0] == 'ok' else None
+    return None if _FMTSTR[p] is None else _FMTSTR[p][which]
+
+def model_tok(d, p, x, which=0):
+    f = model_fmt(d, p, which)
+    return fmt_tok(p, x) if f is None else f % float(x)
 
 # ------------------------------------------------------------------ generators
 LABEL_POOL = ['pop 1', 'YRI', ' lead', 'trail ', 'a  b', '', ' ', 'tab\there', 'ünï', 'folded', 'unfolded x', '#hash',
@@ -450,27 +462,108 @@ def l3_handmade(chk, ctx, c, tmp, rng, seen):
     if bad:
         fail_once(chk, seen, 'handmade:' + bad.split(' ')[0], 'from_file on a hand-laid-out file: ' + bad, inp)
 
+def same_spectrum(dadi, g, fs, c):
+    """every attribute the property names (+ extrap_x) of `g` against the case / the original `fs`; None or what differs"""
+    if type(g) is not dadi.Spectrum: return 'type %s' % type(g).__name__
+    if tuple(g.shape) != tuple(c['shape']): return 'shape'
+    if not same_floats(np.asarray(g.data), np.asarray(fs.data)): return 'data differ (bitwise)'
+    if np.ma.getmaskarray(g).ravel().tolist() != list(map(bool, c['mask'])): return 'mask differs'
+    if g.folded is not True and g.folded is not False and not isinstance(g.folded, np.bool_): return 'folded %r' % (g.folded,)
+    if bool(g.folded) != bool(c['folded']): return 'folded'
+    if g.pop_ids != c['labels']: return 'pop_ids %r' % (g.pop_ids,)
+    if (g.extrap_x is None) != (fs.extrap_x is None) or (g.extrap_x is not None and not same_float(g.extrap_x, fs.extrap_x)): return 'extrap_x %r' % (g.extrap_x,)
+    return None
+
+class LogCapture(logging.Handler):
+    """the messages dadi.Spectrum_mod logs while the block runs"""
+    def __init__(self, dadi):
+        logging.Handler.__init__(self)
+        self.logger = dadi.Spectrum_mod.logger; self.msgs = []
+    def emit(self, record):
+        self.msgs.append(record.getMessage())
+    def __enter__(self):
+        self.old_prop = self.logger.propagate; self.logger.propagate = False
+        self.old_disable = logging.root.manager.disable; logging.disable(logging.NOTSET)     # `check` silences logging globally
+        self.logger.addHandler(self); return self
+    def __exit__(self, *a):
+        self.logger.removeHandler(self); self.logger.propagate = self.old_prop
+        logging.disable(self.old_disable)
+
+def pickle_routes():
+    """every way an object travels through the pickle machinery or is duplicated: pickle protocols 0..5 (bytes and file objects),
+    the multiprocessing pickler, copy.copy, copy.deepcopy"""
+    routes = []
+    for proto in range(0, pickle.HIGHEST_PROTOCOL + 1):
+        routes.append(('pickle%d' % proto, (lambda fs, proto=proto: pickle.loads(pickle.dumps(fs, protocol=proto)))))
+    def via_file(fs):
+        b = io.BytesIO(); pickle.Pickler(b, protocol=pickle.DEFAULT_PROTOCOL).dump(fs); b.seek(0)
+        return pickle.Unpickler(b).load()
+    routes.append(('pickle_file', via_file))
+    def forking(fs):
+        from multiprocessing.reduction import ForkingPickler
+        return pickle.loads(bytes(ForkingPickler.dumps(fs)))
+    routes.append(('forkingpickler', forking))
+    def pipe(fs):
+        import multiprocessing, threading
+        a, b = multiprocessing.Pipe()
+        try:
+            t = threading.Thread(target=a.send, args=(fs,)); t.start()      # a thread: a large object does not fit the pipe buffer
+            g = b.recv(); t.join()
+            return g
+        finally:
+            a.close(); b.close()
+    routes.append(('mp_pipe', pipe))
+    routes.append(('copy', copy.copy))
+    routes.append(('deepcopy', copy.deepcopy))
+    routes.append(('nested', lambda fs: pickle.loads(pickle.dumps({'k': [fs, fs]}))['k'][1]))
+    return routes
+
 def l3_pickle(chk, ctx, c, seen):
     dadi = ctx['dadi']
     fs = mk_spec(dadi, c)
     inp = dict(kind='pickle', case=c)
-    for proto in range(0, pickle.HIGHEST_PROTOCOL + 1):
-        chk.l3(case_key(c, 'pickle%d' % proto)); chk.stat('l3_pickle')
+    for name, route in pickle_routes():
+        chk.l3(case_key(c, name)); chk.stat('l3_pickle'); chk.stat('l3_route_' + name)
         try:
-            g = pickle.loads(pickle.dumps(fs, protocol=proto))
+            with LogCapture(dadi) as log:
+                g = route(fs)
         except Exception as e:
-            fail_once(chk, seen, 'pickle:%s' % type(e).__name__, 'pickle round trip (protocol %d) raised %s: %s' % (proto, type(e).__name__, e), dict(inp, protocol=proto))
+            fail_once(chk, seen, 'pickle:%s' % type(e).__name__, 'round trip through %s raised %s: %s' % (name, type(e).__name__, e), dict(inp, route=name))
             return
-        bad = None
-        if type(g) is not dadi.Spectrum: bad = 'type %s' % type(g).__name__
-        elif tuple(g.shape) != tuple(c['shape']): bad = 'shape'
-        elif not same_floats(g.data, fs.data): bad = 'data differ (bitwise)'
-        elif np.ma.getmaskarray(g).ravel().tolist() != list(map(bool, c['mask'])): bad = 'mask differs'
-        elif bool(g.folded) != bool(c['folded']): bad = 'folded'
-        elif g.pop_ids != c['labels']: bad = 'pop_ids %r' % (g.pop_ids,)
-        elif (g.extrap_x is None) != (fs.extrap_x is None) or (g.extrap_x is not None and not same_float(g.extrap_x, fs.extrap_x)): bad = 'extrap_x %r' % (g.extrap_x,)
+        bad = same_spectrum(dadi, g, fs, c)
+        if bad is None and g is fs: bad = 'identity: the same object came back'
+        if bad is None and same_spectrum(dadi, fs, fs, c): bad = 'original: the round trip changed the object that was pickled'
         if bad:
-            fail_once(chk, seen, 'pickle:' + bad.split(' ')[0], 'pickle round trip (protocol %d): %s' % (proto, bad), dict(inp, protocol=proto))
+            fail_once(chk, seen, 'pickle:' + bad.split(' ')[0].rstrip(':'), 'round trip through %s: %s' % (name, bad), dict(inp, route=name))
+            return
+        if log.msgs: chk.stat('pickle_route_logged_a_warning')
+        fv, gv = float(fs.fill_value), float(g.fill_value)
+        chk.stat('fill_value_' + ('kept' if same_float(fv, gv) else 'reset'))
+
+def _mp_identity(x):
+    return x
+
+def l3_multiprocessing(chk, ctx, cases, seen):
+    """a REAL worker process: spectra sent to a pool worker and sent back (what dadi's multi-process cache generation relies on)"""
+    dadi = ctx['dadi']
+    import multiprocessing
+    specs = [mk_spec(dadi, c) for c in cases]
+    try:
+        mpc = multiprocessing.get_context('fork')
+        with mpc.Pool(1) as pool:
+            back = pool.apply_async(_mp_identity, (specs,)).get(timeout=120)
+    except (OSError, multiprocessing.TimeoutError, ImportError) as e:
+        chk.stat('l3_multiprocessing_unavailable'); chk.notes.append('multiprocessing pool could not be used here: %r' % (e,))
+        return
+    except Exception as e:
+        fail_once(chk, seen, 'pickle:mp_pool:%s' % type(e).__name__, 'sending spectra to a pool worker and back raised %s: %s' % (type(e).__name__, e),
+                  dict(kind='pickle', case=cases[0], route='mp_pool'))
+        return
+    for c, fs, g in zip(cases, specs, back):
+        chk.l3(case_key(c, 'mp_pool')); chk.stat('l3_route_mp_pool')
+        bad = same_spectrum(dadi, g, fs, c)
+        if bad:
+            fail_once(chk, seen, 'pickle:' + bad.split(' ')[0], 'round trip through a pool worker: %s' % bad, dict(kind='pickle', case=c, route='mp_pool'))
             return
 
 def l3_array(chk, ctx, c, tmp, masked, fileobj, seen):
@@ -774,7 +867,7 @@ def spec_wire(c, toks):
 
 def k_tofile(chk, d, c, text, fmi, op):
     """text written by the real to_file vs the generated writer"""
-    toks = [fmt_tok(c['precision'], v) for v in case_vals(c)]
+    toks = [model_tok(d, c['precision'], v, 0) for v in case_vals(c)]      # formatted with the GENERATED format string
     out = d.ask('c14.tofile %s %s %s %s %s %s %s' % (XS(c['comments']), SH(c['shape']), '1' if c['folded'] else '0', OXS(c['labels']),
                                                       '1' if fmi else '0', XS(toks), BITS(c['mask'])))
     if out.startswith('ok ') and unX(out[3:]) == text: chk.k_ok(op)
@@ -878,7 +971,7 @@ def mutations(rng, text, c):
 def k_array(chk, ctx, d, tmp, c, text, masked):
     dadi = ctx['dadi']
     vals = case_vals(c)
-    toks = [fmt_tok(c['precision'], v) for v in vals]
+    toks = [model_tok(d, c['precision'], v, 1) for v in vals]              # formatted with the GENERATED format string
     if masked:
         out = d.ask('c14.filled %s %s' % (XS(toks), BITS(c['mask'])))
         toks = unXS(out[3:])
@@ -984,6 +1077,233 @@ def k_pickle(chk, ctx, d, c, rng):
         if msg is None: chk.k_ok('unpickle')
         else: chk.k_bad('unpickle', inp, impl, out[:300], msg)
 
+# ------------------------------------------------------------------ K: the translated constructor, methods, __array_finalize__
+def tokval(t):
+    """the float a number token denotes (hex floats from the wire, decimal tokens from the model)"""
+    t = t.strip()
+    if t.lower().lstrip('+-').startswith('0x'):
+        return float.fromhex(t)
+    return float(t)
+
+def attr_wire(v):
+    """an attribute value (folded / pop_ids / extrap_x / fill_value) -> pyval token"""
+    if isinstance(v, str): return 'Y' + X(v)
+    return py_wire(v)
+
+def spec_pyval(c, toks):
+    """an existing Spectrum as the `data` argument"""
+    return 'P%s;%s;%s;%s;%s;%s' % (SH(c['shape']), XS(toks), BITS(c['mask']), '1' if c['folded'] else '0', OXS(c['labels']),
+                                   'none' if c.get('extrap') is None else X(c['extrap']))
+
+_NEWMETA = {}
+def new_meta(d):
+    if not _NEWMETA:
+        out = d.ask('c14.newmeta').split(' ')
+        _NEWMETA['params'] = out[1].split(',')
+        _NEWMETA['defaults'] = dict(kv.split('=', 1) for kv in out[2].split(','))
+        _NEWMETA['ma_params'] = out[3].split(',')
+        _NEWMETA['ma_modelled'] = out[4].split(',')
+    return _NEWMETA
+
+def k_newmeta(chk, ctx, d):
+    """signature of Spectrum.__new__ (names, order, defaults) and of numpy's MaskedArray.__new__ vs what the translator bound against"""
+    dadi = ctx['dadi']
+    meta = new_meta(d)
+    sig = inspect.signature(dadi.Spectrum.__new__)
+    names = list(sig.parameters)[1:]
+    if names == meta['params']: chk.k_ok('new_signature')
+    else: chk.k_bad('new_signature', 'Spectrum.__new__', names, meta['params'], 'parameter list differs')
+    for nm in names:
+        dv = sig.parameters[nm].default
+        if dv is inspect.Parameter.empty:
+            ok = nm not in meta['defaults']; real = '(required)'
+        else:
+            real = 'K' if dv is np.ma.nomask else ('Tfloat' if dv is float else attr_wire(dv))
+            ok = meta['defaults'].get(nm) == real
+        if ok: chk.k_ok('new_signature')
+        else: chk.k_bad('new_signature', nm, real, meta['defaults'].get(nm), 'default of %s differs' % nm)
+    ma = list(inspect.signature(np.ma.MaskedArray.__new__).parameters)[1:]
+    if ma == meta['ma_params']: chk.k_ok('ma_signature')
+    else: chk.k_bad('ma_signature', 'numpy.ma.MaskedArray.__new__', ma, meta['ma_params'], 'numpy parameter list differs from the one the translator binds against')
+
+def gen_new_call(rng, c, as_spec):
+    """keyword arguments for one constructor call on the data of case c (each omitted with some probability -> signature default)"""
+    shape = tuple(c['shape']); n = int(np.prod(shape)) if len(shape) else 1
+    kw = {}
+    r = rng.random()
+    m = np.array(c['mask'], dtype=bool).reshape(shape)
+    if r < 0.25: pass                                                   # mask omitted (nomask)
+    elif r < 0.35: kw['mask'] = None
+    elif r < 0.60: kw['mask'] = m
+    elif r < 0.68: kw['mask'] = m.ravel()                                # same size, other shape
+    elif r < 0.76: kw['mask'] = np.array([bool(rng.random() < 0.5)])     # size 1: broadcast
+    elif r < 0.84: kw['mask'] = np.zeros(n + 1 + int(rng.integers(3)), dtype=bool)   # wrong size
+    elif r < 0.92: kw['mask'] = bool(rng.random() < 0.5)                 # True / False
+    else: kw['mask'] = np.ma.nomask
+    if rng.random() < 0.7: kw['mask_corners'] = bool(rng.random() < 0.5)
+    r = rng.random()
+    if r < 0.6: kw['data_folded'] = bool(rng.random() < 0.5)
+    elif r < 0.75: kw['data_folded'] = None
+    if rng.random() < 0.6: kw['check_folding'] = bool(rng.random() < 0.6)
+    r = rng.random()
+    nd = len(shape)
+    if r < 0.35: kw['pop_ids'] = [LABEL_POOL[int(rng.integers(len(LABEL_POOL)))] for _ in range(nd)]
+    elif r < 0.50: kw['pop_ids'] = [LABEL_POOL[int(rng.integers(len(LABEL_POOL)))] for _ in range(nd + 1 + int(rng.integers(2)))]
+    elif r < 0.58: kw['pop_ids'] = []
+    elif r < 0.70: kw['pop_ids'] = None
+    elif r < 0.80 and as_spec and c['labels'] is not None: kw['pop_ids'] = list(c['labels'])
+    if rng.random() < 0.5: kw['extrap_x'] = None if rng.random() < 0.3 else float(rng.uniform(1e-4, 0.1))
+    r = rng.random()
+    if r < 0.12: kw['fill_value'] = 0.0
+    elif r < 0.2: kw['fill_value'] = None
+    elif r < 0.26: kw['fill_value'] = float('nan')
+    if rng.random() < 0.15: kw['copy'] = bool(rng.random() < 0.5)
+    if rng.random() < 0.1: kw['keep_mask'] = False                       # ignored by dadi (it passes the literal True)
+    if rng.random() < 0.1: kw['shrink'] = False
+    if rng.random() < 0.08: kw['dtype'] = float
+    return kw
+
+def kw_wire(name, v):
+    if name == 'mask':
+        if v is None: return 'N'
+        if v is np.ma.nomask: return 'K'
+        if isinstance(v, bool): return 'B1' if v else 'B0'
+        return 'M' + BITS(np.asarray(v).ravel().tolist())
+    if name == 'dtype': return 'Tfloat'
+    return attr_wire(v)
+
+def k_new(chk, ctx, d, c, rng, ntrials):
+    """the real `dadi.Spectrum(...)` vs the GENERATED constructor: accept / reject, every attribute, fill value, warnings logged"""
+    dadi = ctx['dadi']
+    meta = new_meta(d)
+    shape = tuple(c['shape'])
+    toks = [hexf(v) for v in case_vals(c)]
+    a = np.array(case_vals(c), dtype=float).reshape(shape)
+    for _ in range(ntrials):
+        as_spec = bool(rng.random() < 0.4)
+        kw = gen_new_call(rng, c, as_spec)
+        data = mk_spec(dadi, c) if as_spec else a.copy()
+        args = dict(meta['defaults'])
+        args['data'] = spec_pyval(c, toks) if as_spec else 'A%s:%s' % (SH(shape), XS(toks))
+        for k_, v in kw.items():
+            args[k_] = kw_wire(k_, v)
+        try:
+            with LogCapture(dadi) as log:
+                g = dadi.Spectrum(data, **kw)
+            impl = 'ok'
+        except Exception as e:
+            impl = 'exc:' + type(e).__name__; g = None
+        line = 'c14.new ' + ' '.join(args[nm] for nm in meta['params'])
+        out = d.ask(line)
+        inp = dict(kind='new', case=c, as_spec=as_spec, kwargs={k_: (v.tolist() if isinstance(v, np.ndarray) else (None if v is np.ma.nomask else ('float' if v is float else v))) for k_, v in kw.items()},
+                   nomask=('mask' in kw and kw['mask'] is np.ma.nomask))
+        chk.stat('k_new_' + ('spec' if as_spec else 'array') + ('_reject' if g is None else '_accept'))
+        msg = None
+        if g is None:
+            if out != 'err reject': msg = 'implementation raises %s, model: %s' % (impl, out[:160])
+        elif not out.startswith('ok '):
+            msg = 'implementation accepts, model: ' + out
+        else:
+            t = out[3:].split(' ')
+            mshape, mdata, mmask, mfill, mfold, mpop, mex, mwarn = unSH(t[0]), unXS(t[1]), unBITS(t[2]), t[3], t[4], t[5], t[6], unXS(t[7])
+            if tuple(g.shape) != mshape: msg = 'shape'
+            elif [hexf(x) for x in np.asarray(g.data).ravel().tolist()] != mdata: msg = 'data'
+            elif np.ma.getmaskarray(g).ravel().tolist() != mmask: msg = 'mask'
+            elif attr_wire(g.folded) != mfold: msg = 'folded %r vs %s' % (g.folded, mfold)
+            elif attr_wire(g.pop_ids) != mpop: msg = 'pop_ids %r vs %s' % (g.pop_ids, mpop)
+            elif attr_wire(g.extrap_x) != mex: msg = 'extrap_x %r vs %s' % (g.extrap_x, mex)
+            elif not (mfill.startswith('X') and same_float(float(g.fill_value), tokval(unX(mfill[1:])))): msg = 'fill_value %r vs %s' % (g.fill_value, mfill)
+            elif log.msgs != mwarn: msg = 'warnings %r vs %r' % (log.msgs, mwarn)
+            if log.msgs: chk.stat('k_new_warned')
+        if msg is None: chk.k_ok('new')
+        else: chk.k_bad('new', inp, impl, out[:300], msg)
+
+def k_methods(chk, ctx, d, c):
+    """Spectrum.mask_corners() / unmask_all() on the real object vs the GENERATED methods"""
+    dadi = ctx['dadi']
+    plain = dict(c, layout=dict(via='ctor', data='C', mask='C', seed=0))       # a writable mask (some layout routes give a read-only one)
+    for meth in ('mask_corners', 'unmask_all'):
+        fs = mk_spec(dadi, plain)
+        try:
+            getattr(fs, meth)(); impl = 'ok'
+        except Exception as e:
+            impl = 'exc:' + type(e).__name__
+        out = d.ask('c14.method %s %s' % (meth, BITS(c['mask'])))
+        chk.stat('k_method_%s_%s' % (meth, 'ok' if impl == 'ok' else 'raises'))
+        if impl != 'ok':
+            ok = out == 'err reject'
+        else:
+            ok = out.startswith('ok ') and unBITS(out[3:]) == np.ma.getmaskarray(fs).ravel().tolist()
+        if ok: chk.k_ok('methods')
+        else: chk.k_bad('methods', dict(kind='method', method=meth, case=c), impl if impl != 'ok' else np.ma.getmaskarray(fs).ravel().tolist()[:50], out[:200], '%s()' % meth)
+
+def k_finalize(chk, ctx, d, c):
+    """attributes after numpy made a new array from an old one (view / copy.copy / slicing / ufunc) vs the GENERATED __array_finalize__"""
+    dadi = ctx['dadi']
+    fs = mk_spec(dadi, c)
+    plain = np.ma.masked_array(np.array(case_vals(c), dtype=float).reshape(c['shape']), mask=np.array(c['mask'], dtype=bool).reshape(c['shape']))
+    for name, obj, new in (('view_of_plain', plain, lambda o: o.view(dadi.Spectrum)), ('view_of_spectrum', fs, lambda o: o.view(dadi.Spectrum)),
+                           ('copy_copy', fs, copy.copy), ('full_slice', fs, lambda o: o[...])):
+        try:
+            g = new(obj)
+        except Exception as e:
+            chk.k_bad('finalize', dict(kind='finalize', how=name, case=c), 'exc:' + type(e).__name__, None, 'raised'); continue
+        has = isinstance(obj, dadi.Spectrum)
+        line = 'c14.finalize %s %s %s %s %s %s' % (BITS(c['mask']), BITS(c['mask']), 'X' + X(hexf(float(obj.fill_value))),
+                                                   attr_wire(obj.folded) if has else '-', attr_wire(obj.pop_ids) if has else '-',
+                                                   attr_wire(obj.extrap_x) if has else '-')
+        out = d.ask(line)
+        msg = None
+        if not out.startswith('ok '): msg = 'model: ' + out
+        else:
+            t = out[3:].split(' ')
+            if np.ma.getmaskarray(g).ravel().tolist() != unBITS(t[2]): msg = 'mask'
+            elif attr_wire(getattr(g, 'folded', '<absent>')) != t[4]: msg = 'folded %r vs %s' % (getattr(g, 'folded', None), t[4])
+            elif attr_wire(getattr(g, 'pop_ids', '<absent>')) != t[5]: msg = 'pop_ids'
+            elif attr_wire(getattr(g, 'extrap_x', '<absent>')) != t[6]: msg = 'extrap_x'
+            elif not same_float(float(g.fill_value), tokval(unX(t[3][1:]))): msg = 'fill_value'
+        if msg is None: chk.k_ok('finalize')
+        else: chk.k_bad('finalize', dict(kind='finalize', how=name, case=c), repr((getattr(g, 'folded', None), getattr(g, 'pop_ids', None))), out[:200], msg)
+
+def k_tokens(chk, d, c):
+    """tokIsZero (the only interpretation of a number token the model makes) and the format-string primitives"""
+    seen_t = set()
+    for v in case_vals(c)[:12]:
+        for t in (hexf(v), fmt_tok(c['precision'], v)):
+            if t in seen_t: continue
+            seen_t.add(t)
+            out = d.ask('c14.iszero ' + X(t))
+            if out == 'ok %d' % int(tokval(t) == 0): chk.k_ok('tok_is_zero')
+            else: chk.k_bad('tok_is_zero', t, tokval(t) == 0, out, 'float(tok) == 0')
+    p = c['precision']
+    f0, f1 = model_fmt(d, p, 0), model_fmt(d, p, 1)
+    for f in (f0, f1, '%%.%dg' % p, '%g', '%.g', '%.17f', '%.016g', 'x%.16g'):
+        if f is None: continue
+        m = re.fullmatch(r'%\.([0-9]+)g', f)
+        out = d.ask('c14.precision ' + X(f))
+        want = 'ok %d' % int(m.group(1)) if m else 'err reject'
+        if out == want: chk.k_ok('precision_of_format')
+        else: chk.k_bad('precision_of_format', f, want, out, 'precision of a %.<p>g conversion')
+
+def k_zero_size(chk, ctx, d, tmp):
+    """arrays without entries (an axis of length 0): `mask_corners()` raises IndexError in the constructor — the translated
+    constructor and readers must say the same (the round-trip theorems exclude this case for mask_corners=True: hypothesis `hnz`)"""
+    dadi = ctx['dadi']
+    meta = new_meta(d)
+    for shape in ((0,), (2, 0), (0, 3, 1)):
+        for mc in (True, False):
+            try:
+                g = dadi.Spectrum(np.zeros(shape), mask_corners=mc); impl = 'ok'
+            except Exception as e:
+                impl = 'exc:' + type(e).__name__
+            args = dict(meta['defaults']); args['data'] = 'A%s:-' % SH(shape); args['mask_corners'] = 'B1' if mc else 'B0'
+            out = d.ask('c14.new ' + ' '.join(args[nm] for nm in meta['params']))
+            chk.stat('k_zero_size_' + ('accept' if impl == 'ok' else 'reject'))
+            if (impl == 'ok') == out.startswith('ok ') and (impl == 'ok' or out == 'err reject'): chk.k_ok('new_zero_size')
+            else: chk.k_bad('new_zero_size', dict(kind='zero', shape=list(shape), mask_corners=mc), impl, out[:200], 'array without entries')
+        text = ' '.join(str(x) for x in shape) + ' unfolded\n\n\n'
+        k_fromfile(chk, ctx, d, tmp, text, 'from_file_zero_size', note='zero-size')
+
 # ------------------------------------------------------------------ one case, all parts
 def run_case(chk, ctx, c, tmp, rng, seen, heavy=True):
     d = ctx['driver']
@@ -1019,6 +1339,10 @@ def run_case(chk, ctx, c, tmp, rng, seen, heavy=True):
         k_array(chk, ctx, d, tmp, c, t_arr, masked)
         k_fromfile(chk, ctx, d, tmp, t_arr, 'from_file_cross', note='array file')
     k_pickle(chk, ctx, d, c, rng)
+    k_new(chk, ctx, d, c, rng, 6 if ctx['tier'] == 'quick' else 10)
+    k_methods(chk, ctx, d, c)
+    k_finalize(chk, ctx, d, c)
+    k_tokens(chk, d, c)
 
 EDGE_CASES = [
     dict(shape=[1], vals=[1.0], mask=[0], folded=False, labels=['only'], comments=[], precision=16, extrap=None),
@@ -1075,9 +1399,15 @@ def run(chk, ctx):
         "1e-300..1e300, random bit patterns up to 1e308), not proved",
         "gzip compression and the UTF-8 codec are exercised (L3, K on the decompressed text) but not modelled; what is proved is that writer and reader "
         "choose the same transport and text mode for every file name (C14_open_dispatch)",
-        "Spectrum.__new__ (construct: length checks, label count, mask_corners) is a hand-written Lean model tied by K; the readers themselves are translated",
+        "numpy's own MaskedArray.__new__ / asanyarray / make_mask_none / ndarray.view / flat and slice-list indexing are hand-written model primitives "
+        "(maNew, setFlat, setAll, ...) tied by K (ops new, methods, finalize); Spectrum.__new__, mask_corners, unmask_all, __array_finalize__ themselves are "
+        "translated statement by statement and proved equal to the normal form `construct` (C14_construct_translated)",
+        "copy.copy / copy.deepcopy do not go through the reduce pair (ndarray.__copy__ / MaskedArray.__deepcopy__): L3 only, plus the translated "
+        "__array_finalize__ (C14_new_finalize_block, K op finalize)",
         "numpy.fromfile leaves the file position unspecified in the model: the translator refuses a reader that reads from fid after numpy.fromfile",
-        "the pickle byte stream itself (pickle module, numpy array pickling) is trusted; the reduce tuple and the rebuild call are translated and proved",
+        "the pickle byte stream itself (pickle module, numpy array pickling) is outside the model: explicit hypothesis PickleTransport of "
+        "C14_pickle_any_protocol (the argument tuple comes back unchanged, protocols 0-5), exercised by L3 over protocols 0-5, file objects, "
+        "ForkingPickler, a multiprocessing Pipe and a real pool worker; the reduce tuple and the rebuild call are translated and proved",
         "numpy.fromstring with fewer entries than the header announces returns uninitialised tail entries (no error); the model rejects such files; not exercised",
     ]
     chk.assumptions += ["POSIX line ends (os.linesep == '\\n') and a UTF-8 locale for text files",
@@ -1089,11 +1419,14 @@ def run(chk, ctx):
         if d is not None and d.ok():
             k_primitives(chk, d, rng, tier)
             k_meta(chk, ctx, d)
+            k_newmeta(chk, ctx, d)
             modes = d.ask('c14.modes')
             chk.notes.append('open modes read from the source (to_file gz/plain, from_file gz/plain, array_to_file, array_from_file): ' + modes)
         param_check(chk, rng, 60 if tier == 'quick' else 400)
         contract_check(chk, rng, 250 if tier == 'quick' else 4000)
         open_dispatch(chk, ctx, d if (d is not None and d.ok()) else None, tmp, seen)
+        if d is not None and d.ok():
+            k_zero_size(chk, ctx, d, tmp)
         n = 70 if tier == 'quick' else 700
         cases = [norm_case(c) for c in EDGE_CASES] + [gen_case(rng, tier) for _ in range(n)]
         for i, c in enumerate(cases):
@@ -1109,6 +1442,7 @@ def run(chk, ctx):
                 chk.sample(dict(layout=c.get('layout'), shape=c['shape'], folded=c['folded'], labels=c['labels'], comments=c['comments'], precision=c['precision'],
                                 values=[fmt_tok(17, v) for v in case_vals(c)[:8]], mask=c['mask'][:8]))
             run_case(chk, ctx, c, tmp, rng, seen)
+        l3_multiprocessing(chk, ctx, [c for c in cases if int(np.prod(c['shape'])) <= 400][:(25 if tier == 'quick' else 120)], seen)
     finally:
         tmp.close()
 
@@ -1124,6 +1458,8 @@ def replay(chk, ctx, data):
             k_fromfile(chk, ctx, ctx['driver'], tmp, inp['text'], 'from_file_handmade', note=inp.get('note'))
         elif inp.get('kind') == 'arrtext' and ctx['driver'] is not None:
             k_arr_from(chk, ctx, ctx['driver'], tmp, inp['text'], 'array_from_file', inp.get('note'))
+        elif inp.get('kind') in ('new', 'method', 'finalize') and 'case' in inp:
+            run_case(chk, ctx, norm_case(inp['case']), tmp, rng, seen)
         elif inp.get('kind') == 'cross' and 'case' in inp:
             run_case(chk, ctx, norm_case(inp['case']), tmp, rng, seen)
         elif inp.get('kind') == 'fmt':
